@@ -1261,11 +1261,24 @@ func (a *progAnalysis) mapParamAt(prm *ssa.Parameter, key string) absVal {
 				return absVal{}
 			}
 			mm, ok := args[idx].(*ssa.MakeMap)
+			fromGlobal := false
 			if !ok {
-				return absVal{}
+				// a package-level table that is built once by the package initialiser and never written again
+				if ld, isLoad := args[idx].(*ssa.UnOp); isLoad && ld.Op == token.MUL {
+					if g, isGlobal := ld.X.(*ssa.Global); isGlobal {
+						mm = readOnlyGlobalMap(g)
+						fromGlobal = mm != nil
+					}
+				}
+				if mm == nil {
+					return absVal{}
+				}
 			}
 			var found absVal
 			for _, ref := range *mm.Referrers() {
+				if st, isStore := ref.(*ssa.Store); isStore && fromGlobal && st.Val == ssa.Value(mm) {
+					continue
+				}
 				switch u := ref.(type) {
 				case *ssa.MapUpdate:
 					k, ok := u.Key.(*ssa.Const)
@@ -1376,4 +1389,71 @@ func (a *progAnalysis) leavesAtEOF(fn *ssa.Function, h *ssa.BasicBlock, loop map
 		return false, completed
 	}
 	return true, fmt.Sprintf("%d exit tests decided by the EOF assumption", decided)
+}
+
+// readOnlyGlobalMap: the map literal a package-level variable is initialised with, provided nothing else ever stores
+// to the variable or updates a map loaded from it.
+func readOnlyGlobalMap(g *ssa.Global) *ssa.MakeMap {
+	if g.Pkg == nil {
+		return nil
+	}
+	var lit *ssa.MakeMap
+	for _, m := range g.Pkg.Members {
+		fn, ok := m.(*ssa.Function)
+		if !ok {
+			continue
+		}
+		fns := append([]*ssa.Function{fn}, fn.AnonFuncs...)
+		for _, f := range fns {
+			for _, b := range f.Blocks {
+				for _, ins := range b.Instrs {
+					switch x := ins.(type) {
+					case *ssa.Store:
+						if x.Addr == ssa.Value(g) {
+							mm, isLit := x.Val.(*ssa.MakeMap)
+							if !isLit || f.Name() != "init" || lit != nil {
+								return nil
+							}
+							lit = mm
+						}
+					case *ssa.MapUpdate:
+						if ld, ok := x.Map.(*ssa.UnOp); ok && ld.X == ssa.Value(g) {
+							return nil
+						}
+					}
+				}
+			}
+		}
+	}
+	// methods are not package members: look at them as well
+	for _, m := range g.Pkg.Members {
+		tn, ok := m.(*ssa.Type)
+		if !ok {
+			continue
+		}
+		for _, t := range []types.Type{tn.Type(), types.NewPointer(tn.Type())} {
+			ms := g.Pkg.Prog.MethodSets.MethodSet(t)
+			for i := 0; i < ms.Len(); i++ {
+				f := g.Pkg.Prog.MethodValue(ms.At(i))
+				if f == nil {
+					continue
+				}
+				for _, b := range f.Blocks {
+					for _, ins := range b.Instrs {
+						switch x := ins.(type) {
+						case *ssa.Store:
+							if x.Addr == ssa.Value(g) {
+								return nil
+							}
+						case *ssa.MapUpdate:
+							if ld, ok := x.Map.(*ssa.UnOp); ok && ld.X == ssa.Value(g) {
+								return nil
+							}
+						}
+					}
+				}
+			}
+		}
+	}
+	return lit
 }
